@@ -44,6 +44,14 @@ for c in checks:
 git("checkout", "--", "a5")
 d = os.path.join(V, "seeded", "%s-m%s" % (pid, k))
 os.makedirs(d, exist_ok=True)
+try:
+    old = json.load(open(os.path.join(d, "meta.json")))
+    for c, v in old.get("checks", {}).items():
+        res.setdefault(c, v)          # keep results of checks not re-run now
+except Exception:
+    pass
+for v in res.values():
+    v["violations"] = v.get("violations", [])[:6]
 shutil.copy(diff, os.path.join(d, "patch.diff"))
 shutil.copy(demo, os.path.join(d, "demo.py"))
 meta = {"property": pid, "summary": meta_in.get("summary"), "needs": meta_in.get("needs"), "files": meta_in.get("files"),
